@@ -433,17 +433,18 @@ def token_case(ctx, k):
     try:
         w = sim.w
         tokens = {}
-        pending_plain = []
+        plain_value = rng.choice([{"plain": "reply"}, "accepted", 202, True, [], None, {}, 0, ""])
+        case["plain_value"] = plain_value
 
         def cb(wk, req):
             p = req["payload"]
             tokens[p.get("i")] = p.get("token")
             if reply == "plain-before":
-                return {"plain": "reply"}
+                return copy.deepcopy(plain_value)        # an ordinary acknowledgement of the processor: any JSON value, not only an object
             if reply == "error":
                 return {"errorType": "Cb.Error", "errorMessage": "processor failed"}
             if reply == "plain-after":
-                return DELAY(8, {"plain": "late reply"})
+                return DELAY(8, copy.deepcopy(plain_value))
             return NOREPLY
         w.add_worker("cb", cb)
         child_arn = None
